@@ -236,8 +236,17 @@ func runC19(t *simrt.Tape, o Opts) Outcome {
 			pr := pairs[t.Choose(len(pairs), "partition-pair")]
 			partA, partB = pr[0], pr[1]
 		}
-		recA, seA := mk(partA)
-		recB, _ := mk(partB)
+		// a freshly started sidecar whose very first streams arrive together: nothing has gone through
+		// the service before (own constructor only; the streams then only open sessions and encrypt)
+		coldStart := ownCtor && nstreams > 1 && !serial && !prior && t.Choose(2, "cold-start") == 1
+		var recA, recB *world.Rec
+		var seA *world.Sess
+		if coldStart {
+			recA, recB = &world.Rec{Part: partA}, &world.Rec{Part: partB}
+		} else {
+			recA, seA = mk(partA)
+			recB, _ = mk(partB)
+		}
 		if recA == nil || recB == nil {
 			return
 		}
@@ -249,6 +258,10 @@ func runC19(t *simrt.Tape, o Opts) Outcome {
 		if !swept && nstreams > 1 && t.Choose(2, "stream-partitions") == 1 {
 			streamParts = []string{partA, "c", "d", "e"}
 			for _, p := range streamParts[1:] {
+				if coldStart {
+					recOf[p] = &world.Rec{Part: p}
+					continue
+				}
 				r, se := mk(p)
 				if r == nil {
 					return
@@ -286,6 +299,13 @@ func runC19(t *simrt.Tape, o Opts) Outcome {
 					continue
 				}
 				pl.seq = append(pl.seq, t.Choose(rqKinds, "rq"))
+			}
+			if coldStart {
+				// no record exists yet: a session and a few encrypts per stream
+				pl.seq = []int{rqGetOK}
+				for k := 1 + t.Choose(3, "cold.encrypts"); k > 0; k-- {
+					pl.seq = append(pl.seq, rqEncrypt)
+				}
 			}
 			switch t.Choose(5, "transport-fault") {
 			case 1:
